@@ -142,7 +142,7 @@ func (ex *Exec) zero(t types.Type) Value {
 		return ReflV{}
 	}
 	if isNamed(t, "math/big", "Int") {
-		return BigV{T: ex.Ctx.BV(bigW, 0)}
+		return ex.bigZero()
 	}
 	switch u := t.Underlying().(type) {
 	case *types.Basic:
